@@ -187,7 +187,11 @@ def adaptive_case(draw):
     P = TWO_PI / n
     Tmax = min(3 * P, 2500 * c["h"])
     c["T_us"] = draw(go.uniform_int(int(0.02 * P * 1e6), int(Tmax * 1e6))) * (-1 if c["back"] else 1)
-    c["tol"] = draw(st.sampled_from([1e-3, 1e-5]))
+    c["tol"] = draw(st.sampled_from([1e-3, 1e-5, 1e-5, 1e-6, 1e-7]))
+    # the request made in one piece, or in legs through the objects the library hands back (the returned orbit
+    # propagated again; a point yielded by iter() propagated on; a copy / pickle of the returned orbit)
+    c["legs"] = draw(st.sampled_from([[], [], [0.4], [0.5], [0.3, 0.7], [0.05], [0.95]]))
+    c["via"] = draw(st.sampled_from(["propagate", "propagate", "iter", "copy", "pickle", "deepcopy"]))
     return c
 
 
@@ -195,18 +199,44 @@ def check_adaptive(case):
     use_labels(case)
     orb, cart, mu = build(case, tol=case["tol"])
     T = case["T_us"] * 1e-6
-    res = orb.propagate(mkdate(case["T_us"]))
+    legs = case.get("legs") or []
+    via = case.get("via", "propagate")
+    cur = orb
+    for f in legs:
+        mid_us = int(case["T_us"] * f)
+        if via == "iter" and mid_us > 0:
+            # the last point of an iteration that stops at the intermediate date
+            pts = list(cur.iter(stop=mkdate(mid_us)))
+            nxt = pts[-1]
+            if nxt.date != mkdate(mid_us):
+                nxt = cur.propagate(mkdate(mid_us))
+        else:
+            nxt = cur.propagate(mkdate(mid_us))
+        if via == "copy":
+            nxt = nxt.copy()
+        elif via == "pickle":
+            import pickle
+
+            nxt = pickle.loads(pickle.dumps(nxt))
+        elif via == "deepcopy":
+            import copy
+
+            nxt = copy.deepcopy(nxt)
+        cur = nxt
+    res = cur.propagate(mkdate(case["T_us"]))
     ref = tb.propagate_uv(cart, T, mu)
     err = float(np.linalg.norm(pos(res)[:3] - ref[:3]))
-    steps = abs(T) / case["h"] + 8
+    steps = abs(T) / case["h"] + 8 * (1 + len(legs))
     n, wp = rates(case["el"], mu)
     # "a small multiple of the tolerance per step": calibration over 1500 cases gave err <= 1.0 * tol * steps;
     # the 3 cm floor is the float-MJD abscissa of the final interpolation (0.63 us x 7.5 km/s = 5 mm seen)
-    bound = 10 * case["tol"] * steps + 0.03
+    bound = 10 * case["tol"] * steps + 0.03 * (1 + len(legs))
     if err > bound:
-        raise Violation("adaptive-error", f"{case['method']} tol={case['tol']} h={case['h']}s T={T:.1f}s: error {err:.4g} m "
-                                          f"> {bound:.4g} m")
-    return dict(nt=True, cls=label_cls(case) + [case["method"], f"tol={case['tol']}", "backward" if case["back"] else "forward"],
+        raise Violation("adaptive-error", f"{case['method']} tol={case['tol']} h={case['h']}s T={T:.1f}s"
+                                          + (f" reached in legs cut at {legs} of the span (through {via})" if legs else "")
+                                          + f": error {err:.4g} m > {bound:.4g} m")
+    return dict(nt=True, cls=label_cls(case) + [case["method"], f"tol={case['tol']}", "backward" if case["back"] else "forward",
+                                                f"legs:{len(legs) + 1}"] + ([f"via:{via}"] if legs else []),
                 ratio=err / bound)
 
 
